@@ -96,14 +96,25 @@ theorem checkHTTP2Conds_eq : Gen.RespGuard.checkHTTP2Conds = [
     "if !state.NegotiatedProtocolIsMutual -> return error",
     "return nil"] := rfl
 
-/-- `panicOnHTTP1Client.Do` (model: `h2Panics`): on an error it panics only for the ALPN alert and otherwise returns
-the error; on a response it panics iff `checkHTTP2(res.TLS)` fails -/
+/-- `panicOnHTTP1Client.Do` (model: `h2Panics`): on an error it panics only under `DOERR-COND` (`doErrPanics_eq`) and
+otherwise returns the error; on a response it panics iff `checkHTTP2(res.TLS)` fails -/
 theorem panicOnHTTP1Do_eq : Gen.RespGuard.panicOnHTTP1Do = [
     "res, err := c.Client.Do(req)",
-    "if err != nil {var opError *net.OpError; if errors.As(err, &opError) && opError.Op == \"remote error\" && strings.Contains(err.Error(), \"no application protocol\") {PANIC notHTTP2PanicMsg}; return nil, err}",
+    "if err != nil {var opError *net.OpError; if DOERR-COND {PANIC notHTTP2PanicMsg}; return nil, err}",
     "err = checkHTTP2(res.TLS)",
     "if err != nil {PANIC notHTTP2PanicMsg}",
     "return res, nil"] := rfl
+
+/-- the condition of the error branch, as a boolean function of its three atoms, is the model's `DoErrFacts.panics`:
+ALL of "an OpError", "Op is `remote error`" (an alert RECEIVED from the peer), "the text of alert 120". Reordering the
+conjuncts keeps this lemma; weakening any of them (`||`, a dropped conjunct) breaks it. -/
+theorem doErrPanics_eq (e : DoErrFacts) :
+    Gen.RespGuard.doErrPanics e.isOpError e.opRemoteError e.textNoAppProto = e.panics := by
+  obtain ⟨a, b, c⟩ := e
+  cases a <;> cases b <;> cases c <;> rfl
+
+/-- every atom of that condition is one the model knows -/
+theorem doErrUnknownAtoms_eq : Gen.RespGuard.doErrUnknownAtoms = [] := rfl
 
 /-! ### `instance.Run` -/
 
